@@ -445,12 +445,13 @@ def gen_dtypes(tier):
             for raw in (rawi, rawn):
                 for anylen in (3, 4):
                     yield {"kind": "dtype", "name": name, "dtype": dt, "raw": raw, "anylen": anylen}
+            yield {"kind": "dtype", "name": name, "dtype": dt, "raw": rawi, "anylen": 3, "as_list": True}
 
 
 def s_dtype():
     return st.fixed_dictionaries({"kind": st.just("dtype"), "name": st.sampled_from(sorted(table())), "dtype": st.sampled_from(ARRAY_DTYPES),
                                   "raw": st.lists(st.lists(st.integers(-9, 9).map(float), min_size=8, max_size=8), min_size=2, max_size=2),
-                                  "anylen": st.integers(1, 6)})
+                                  "anylen": st.integers(1, 6), "as_list": st.sampled_from([False, False, True])})
 
 
 def _dtype(case):
@@ -474,6 +475,9 @@ def _dtype(case):
         ref = sp.fn([np.array(v, dtype=float) for v in vals])
     except Exception as e:  # noqa
         ref = e
+    if case.get("as_list"):
+        arrs = [list(a) for a in arrs]        # a list of NumPy scalars of that type (what list(array) gives)
+        c.feat(as_list=True)
     try:
         got = sp.fn(arrs)
     except Exception as e:  # noqa
